@@ -38,7 +38,6 @@ type Chain struct {
 	Opens  int
 }
 
-
 // NewSoloChain creates the bookkeeper account, sets the process-wide solo
 // configuration and builds the genesis block. The ledger is not opened yet.
 func NewSoloChain(c *simkit.Ctx, name string) *Chain {
